@@ -71,6 +71,11 @@ def run_geo(pid, tier, seed, keys, what_text, sig_extra=None, classes=None, opts
             vo.update({"vacuum": True, "_noT": True})
         jobs.append((ci, 4, "interior", (cse, oracle[ci], 4, "interior", keys, vo), "inputs given component-wise"))
         jobs.append((ci, 4, "interior", (cse, oracle[ci], 4, "interior", keys, dict(vo, _reversed=True)), "inputs given component-wise, keys in reverse order"))
+        if cse["cls"] == "z-shift":
+            jobs.append((ci, 4, "interior", (cse, oracle[ci], 4, "interior", keys, dict(vo, _components="sparse")),
+                         "inputs given component-wise, vanishing shift components omitted"))
+            jobs.append((ci, 4, "interior", (cse, oracle[ci], 4, "interior", keys, dict(vo, _components="sparse", _reversed=True)),
+                         "inputs given component-wise, vanishing shift components omitted, keys in reverse order"))
         va = dict(opts or {})
         va["_aniso"] = (1.0, 0.8, 1.25)
         if cse.get("vacuum"):
